@@ -208,6 +208,12 @@ func c20Pairs() []c20Pair {
 			c20Inst{SQL: "SELECT k, max(v) AS s FROM stream GROUP BY k, GLOBAL WINDOW TRIGGER WHEN max(v) >= 2", Rows: num}},
 		{"group-key-expr", c20Inst{SQL: "SELECT upper(k) AS uk, count(*) AS c FROM stream GROUP BY upper(k), CountingWindow(2)", Rows: num}, c20Inst{SQL: "SELECT concat(k, 'x') AS uk, count(*) AS c FROM stream GROUP BY k, CountingWindow(2)", Rows: num}},
 		{"case-vs-concat", c20Inst{SQL: "SELECT CASE WHEN v > 1 THEN 'hi' ELSE 'lo' END AS r FROM stream", Rows: num}, c20Inst{SQL: "SELECT k + '_' + k AS r FROM stream", Rows: strs}},
+		// one TRIGGER WHEN text, different SELECT lists (the predicate's aggregate selected / not selected / under a reused alias)
+		{"same-trigger-different-select", c20Inst{SQL: "SELECT k, sum(v) AS total FROM stream GROUP BY k, GLOBAL WINDOW TRIGGER WHEN sum(v) >= 3", Rows: num},
+			c20Inst{SQL: "SELECT k, count(*) AS total FROM stream GROUP BY k, GLOBAL WINDOW TRIGGER WHEN sum(v) >= 3", Rows: num}},
+		// MATCH_RECOGNIZE next to an instance whose DEFINE cannot be evaluated on some rows (text where a number is compared)
+		{"cep-with-failing-rows", c20Inst{SQL: "SELECT * FROM stream MATCH_RECOGNIZE (ORDER BY ts MEASURES FIRST(v) AS f, LAST(v) AS l ONE ROW PER MATCH PATTERN (A B) DEFINE A AS v >= 1, B AS v > PREV(v))", Rows: []Row{{"k": "a", "v": "N/A", "ts": 1}, {"k": "a", "v": 1, "ts": 2}, {"k": "a", "v": nil, "ts": 3}}},
+			c20Inst{SQL: "SELECT * FROM stream MATCH_RECOGNIZE (ORDER BY ts MEASURES FIRST(v) AS f, LAST(v) AS l ONE ROW PER MATCH PATTERN (A B) DEFINE A AS v >= 1, B AS v > PREV(v))", Rows: num}},
 		// instances built from a custom performance configuration whose overflow strategy is left unnamed
 		{"unnamed-overflow-strategy", c20Inst{SQL: "SELECT k, v FROM stream", Rows: num, Perf: "unnamed"}, c20Inst{SQL: "SELECT v * 10 AS w FROM stream WHERE v > 1", Rows: num, Perf: "unnamed"}},
 		{"unnamed-strategy-vs-default", c20Inst{SQL: "SELECT k, count(*) AS c FROM stream GROUP BY k, CountingWindow(1)", Rows: num, Perf: "unnamed"}, c20Inst{SQL: "SELECT k, v FROM stream", Rows: num}},
